@@ -350,6 +350,9 @@ func (d *tDecoder) decodeType(t *tType, b []byte, p unsafe.Pointer, maxdepth int
 				*(*unsafe.Pointer)(tmp) = sliceV
 				tmp = sliceV
 			}
+			if vt.T == tSTRUCT && !vt.IsPointer {
+				v.SetZero() // by-value struct: the pooled slot still holds the previous entry
+			}
 			if vt.FixedSize > 0 {
 				if len(b)-i < vt.FixedSize {
 					err = io.ErrShortBuffer
